@@ -194,8 +194,8 @@ func runTreeLiteral(c *core.Ctx, l string) {
 		files := map[string]string{
 			"layouts/main.tw":    "L<@reserve(\"arg\")|@reserve(\"block\")|@reserve(\"argraw\")>",
 			"components/card.tw": "C<{{ title }}|@slot|@slot(\"raw\")|{{ title.raw() }}>",
-			"page.tw": "@use(\"~main\")@insert(\"arg\", " + quoted + ")@insert(\"block\"){{ " + quoted + " }}@end@insert(\"argraw\", " + quoted + ".raw())",
-			"comp.tw": "@component(\"~card\", {title: " + quoted + "})@slot{{ " + quoted + " }}@end@slot(\"raw\"){{ " + quoted + ".raw() }}@end@end",
+			"page.tw":            "@use(\"~main\")@insert(\"arg\", " + quoted + ")@insert(\"block\"){{ " + quoted + " }}@end@insert(\"argraw\", " + quoted + ".raw())",
+			"comp.tw":            "@component(\"~card\", {title: " + quoted + "})@slot{{ " + quoted + " }}@end@slot(\"raw\"){{ " + quoted + ".raw() }}@end@end",
 		}
 		tpl, err := loadTree(c, "c10tree", files, ".tw")
 		if err != nil {
